@@ -2,6 +2,7 @@
 structural equality modulo local aliases, statement walking with enclosing-block information."""
 import ast
 import copy
+import re
 
 from .program import FuncInfo, ClassInfo, Ext, ModRef, rel
 from .absint import CTX
@@ -448,8 +449,35 @@ def const_test(e, consts):
         if len(ts) != len(tn):
             return _UNDEC
         return isinstance(v, ts) and not (int in ts and bool not in ts and isinstance(v, bool))
+    if isinstance(e, ast.Call) and isinstance(e.func, ast.Attribute) and not e.keywords and isinstance(e.func.value, (ast.Name, ast.Constant, ast.Call)):
+        # label.lower() / label.strip() ...: computed for a known string
+        from .desugar import STR_PURE
+        if e.func.attr in STR_PURE:
+            b = const_test(e.func.value, consts)
+            args = [const_test(a, consts) for a in e.args]
+            if isinstance(b, str) and all(isinstance(a, (str, int)) and not isinstance(a, bool) for a in args):
+                try:
+                    r_ = getattr(b, e.func.attr)(*args)
+                except Exception:
+                    return _UNDEC
+                return r_ if isinstance(r_, (str, bool)) else _UNDEC
+        return _UNDEC
+    if isinstance(e, ast.Call) and isinstance(e.func, ast.Name) and e.func.id == "str" and len(e.args) == 1 and not e.keywords:
+        b = const_test(e.args[0], consts)
+        return b if isinstance(b, str) else _UNDEC
+    if isinstance(e, ast.Subscript) and isinstance(e.value, ast.Dict) and all(isinstance(k, ast.Constant) for k in e.value.keys):
+        k_ = const_test(e.slice, consts)
+        if k_ is _UNDEC or isinstance(k_, OneOf):
+            return _UNDEC
+        hit = [v for k, v in zip(e.value.keys, e.value.values) if type(k.value) is type(k_) and k.value == k_]
+        return const_test(hit[-1], consts) if hit else _UNDEC
     if isinstance(e, ast.Compare) and len(e.ops) == 1:
         l, r = const_test(e.left, consts), const_test(e.comparators[0], consts)
+        if isinstance(e.comparators[0], (ast.Dict, ast.Set)) and l is not _UNDEC and isinstance(e.ops[0], (ast.In, ast.NotIn)):
+            ks = e.comparators[0].keys if isinstance(e.comparators[0], ast.Dict) else e.comparators[0].elts
+            if all(isinstance(k, ast.Constant) for k in ks):
+                inside = any(type(k.value) is type(l) and k.value == l for k in ks)
+                return inside if isinstance(e.ops[0], ast.In) else not inside
         if isinstance(e.comparators[0], (ast.Tuple, ast.List)) and l is not _UNDEC:
             items = [const_test(x, consts) for x in e.comparators[0].elts]
             if all(i is not _UNDEC for i in items):
@@ -533,6 +561,16 @@ class _SubstEnv(ast.NodeTransformer):
             return copy.deepcopy(self.env[node.id])
         return node
 
+    def visit_Subscript(self, node):
+        # d["k"] after `d["k"] = v` / `d.update({"k": v})` in the straight-line code before: the value stored there
+        if isinstance(node.ctx, ast.Load) and isinstance(node.value, ast.Name) and node.value.id not in self.bound \
+                and isinstance(node.slice, ast.Constant) and isinstance(node.slice.value, str):
+            key = entry_key(node.value.id, node.slice.value)
+            if key in self.env:
+                # (the read is kept next to the value: rules that ask WHICH entry this is still see it)
+                return ast.Call(func=ast.Name(id=ENTRY_VALUE, ctx=ast.Load()), args=[node, copy.deepcopy(self.env[key])], keywords=[])
+        return self.generic_visit(node)
+
     def _comp(self, node):
         # comprehension variables shadow outer names
         names = set()
@@ -563,6 +601,103 @@ def stored_names(stmt):
 
 
 SETDEFAULT = "__setdefault__"
+BEFORE_STORE = "__entry_before_store__"
+ENTRY_VALUE = "__entry__"           # __entry__(d["k"], value stored there)
+
+
+def entry_key(d, k):
+    return f"{d}[{k!r}]"
+
+
+def _entry_store(env, d, k, value):
+    """record `d[k] = value` for a dictionary that is not written out in env: later reads of d[k] see the value; expressions read
+    BEFORE the store keep the old entry (marked, so that the two are not confused)"""
+    key = entry_key(d, k)
+
+    class Old(ast.NodeTransformer):
+        def visit_Subscript(self, n):
+            if isinstance(n.value, ast.Name) and n.value.id == d and isinstance(n.slice, ast.Constant) and n.slice.value == k and isinstance(n.ctx, ast.Load):
+                return ast.Call(func=ast.Name(id=BEFORE_STORE, ctx=ast.Load()), args=[n], keywords=[])
+            return self.generic_visit(n)
+
+        def visit_Call(self, n):
+            if isinstance(n.func, ast.Name) and n.func.id == BEFORE_STORE:
+                return n
+            if isinstance(n.func, ast.Name) and n.func.id == ENTRY_VALUE and len(n.args) == 2:
+                # a read of an entry that had been stored before: now it is the value of THAT time
+                return ast.Call(func=ast.Name(id=BEFORE_STORE, ctx=ast.Load()), args=[n], keywords=[]) \
+                    if (isinstance(n.args[0], ast.Subscript) and isinstance(n.args[0].value, ast.Name) and n.args[0].value.id == d
+                        and isinstance(n.args[0].slice, ast.Constant) and n.args[0].slice.value == k) else self.generic_visit(n)
+            return self.generic_visit(n)
+    v = _SubstEnv(env).visit(copy.deepcopy(value))
+    v = Old().visit(v)
+    for nm in list(env):
+        if nm != key and any(isinstance(x, ast.Subscript) and isinstance(x.value, ast.Name) and x.value.id == d for x in ast.walk(env[nm])):
+            env[nm] = Old().visit(copy.deepcopy(env[nm]))
+    env[key] = ast.fix_missing_locations(v)
+
+
+MAYBE_REPLACED = "__entry_maybe_replaced__"
+
+
+def _entry_effects(env, s):
+    """effect of a compound statement (if / for / try ..) on the dictionary entries recorded in env:
+    `if "k" not in d: d["k"] = default` does nothing when d["k"] is known to have been stored; a store under a constant key makes that
+    entry 'maybe replaced'; a store under a computed key (for k in d: d[k] = ..) makes every entry of d 'maybe replaced' (the recorded
+    value stays visible inside the marker); removing entries (del / pop / clear) or an update that is not written out forgets them"""
+    known = {}
+    for key_ in env:
+        if "[" in key_ and key_.endswith("]"):
+            known.setdefault(key_.split("[", 1)[0], []).append(key_)
+    if not known:
+        return
+    # the fill-in idiom on a key that is known to be present: no effect
+    if isinstance(s, ast.If) and not s.orelse and isinstance(s.test, ast.Compare) and len(s.test.ops) == 1 and isinstance(s.test.ops[0], ast.NotIn) \
+            and isinstance(s.test.left, ast.Constant) and isinstance(s.test.comparators[0], ast.Name) \
+            and entry_key(s.test.comparators[0].id, s.test.left.value) in env \
+            and all(isinstance(b, ast.Assign) and len(b.targets) == 1 and isinstance(b.targets[0], ast.Subscript) and isinstance(b.targets[0].value, ast.Name)
+                    and b.targets[0].value.id == s.test.comparators[0].id and isinstance(b.targets[0].slice, ast.Constant)
+                    and b.targets[0].slice.value == s.test.left.value for b in s.body):
+        return
+
+    def maybe(key_):
+        v = env[key_]
+        if not (isinstance(v, ast.Call) and isinstance(v.func, ast.Name) and v.func.id == MAYBE_REPLACED):
+            env[key_] = ast.Call(func=ast.Name(id=MAYBE_REPLACED, ctx=ast.Load()), args=[v], keywords=[])
+    for d_, keys in known.items():
+        const_k, computed, forget = set(), False, False
+        for n in ast.walk(s):
+            if isinstance(n, ast.Subscript) and isinstance(n.value, ast.Name) and n.value.id == d_ and isinstance(n.ctx, (ast.Store, ast.Del)):
+                if isinstance(n.ctx, ast.Del):
+                    forget = True
+                elif isinstance(n.slice, ast.Constant) and isinstance(n.slice.value, str):
+                    const_k.add(n.slice.value)
+                else:
+                    computed = True
+            elif isinstance(n, ast.Call) and isinstance(n.func, ast.Attribute) and isinstance(n.func.value, ast.Name) and n.func.value.id == d_ \
+                    and n.func.attr in ("update", "pop", "popitem", "setdefault", "clear", "__setitem__", "__delitem__"):
+                forget = True
+            elif isinstance(n, ast.Name) and n.id == d_ and isinstance(n.ctx, (ast.Store, ast.Del)):
+                forget = True
+        if forget:
+            for key_ in keys:
+                env.pop(key_, None)
+            continue
+        for key_ in keys:
+            if computed or any(key_ == entry_key(d_, k_) for k_ in const_k):
+                maybe(key_)
+
+
+def _entry_touchers(s):
+    """names of dictionaries whose entries statement s may change in a way that is not followed"""
+    out = set()
+    for n in ast.walk(s):
+        if isinstance(n, ast.Subscript) and isinstance(n.ctx, (ast.Store, ast.Del)) and isinstance(n.value, ast.Name):
+            out.add(n.value.id)
+        elif isinstance(n, ast.Call) and isinstance(n.func, ast.Attribute) and isinstance(n.func.value, ast.Name) \
+                and n.func.attr in ("update", "pop", "popitem", "setdefault", "clear", "__setitem__", "__delitem__"):
+            out.add(n.func.value.id)
+    return out
 
 
 def seq_env(stmts, upto=None, env=None, keep=()):
@@ -577,11 +712,17 @@ def seq_env(stmts, upto=None, env=None, keep=()):
                 env.pop(n, None)
             continue
         if isinstance(s, ast.Assign) and len(s.targets) == 1 and isinstance(s.targets[0], ast.Name):
-            if (isinstance(s.value, (ast.List, ast.Dict, ast.Set)) and not getattr(s.value, "elts", getattr(s.value, "keys", None))) or \
+            if (isinstance(s.value, ast.Dict) and not s.value.keys) or \
+                    (isinstance(s.value, ast.Call) and isinstance(s.value.func, ast.Name) and s.value.func.id == "dict" and not s.value.args and not s.value.keywords):
+                env[s.targets[0].id] = ast.Dict(keys=[], values=[])     # an option dictionary filled in below (stores that are not followed forget it)
+            elif (isinstance(s.value, (ast.List, ast.Dict, ast.Set)) and not getattr(s.value, "elts", getattr(s.value, "keys", None))) or \
                     (isinstance(s.value, ast.Call) and isinstance(s.value.func, ast.Name) and s.value.func.id in ("list", "dict", "set") and not s.value.args and not s.value.keywords):
                 env.pop(s.targets[0].id, None)  # mutable accumulator: keep the name opaque
             else:
                 env[s.targets[0].id] = _SubstEnv(env).visit(copy.deepcopy(s.value))
+                for n_ in _entry_touchers(s.value):
+                    if n_ != s.targets[0].id:
+                        env.pop(n_, None)           # x = d.pop("k"): d is no longer the dictionary written out
         elif isinstance(s, ast.Assign) and len(s.targets) == 1 and isinstance(s.targets[0], (ast.Tuple, ast.List)) \
                 and isinstance(s.value, (ast.Tuple, ast.List)) and len(s.value.elts) == len(s.targets[0].elts) \
                 and all(isinstance(t, ast.Name) for t in s.targets[0].elts):
@@ -638,6 +779,16 @@ def seq_env(stmts, upto=None, env=None, keep=()):
                 vals.append(v_)
             env[s.targets[0].value.id] = ast.Dict(keys=[ast.Constant(value=x) for x in keys], values=vals)
         elif isinstance(s, ast.Assign) and len(s.targets) == 1 and isinstance(s.targets[0], ast.Subscript) and isinstance(s.targets[0].value, ast.Name) \
+                and s.targets[0].value.id not in env and isinstance(s.targets[0].slice, ast.Constant) and isinstance(s.targets[0].slice.value, str):
+            # d["k"] = v on a dictionary we only know by name (a parameter): the entry becomes a value of its own
+            _entry_store(env, s.targets[0].value.id, s.targets[0].slice.value, s.value)
+        elif _dict_update(s) is not None and _dict_update(s)[0] not in env:
+            nm_, items_ = _dict_update(s)
+            vals_ = [(k_, v_) for k_, v_ in items_]
+            for k_, v_ in vals_:
+                if isinstance(k_, str):
+                    _entry_store(env, nm_, k_, v_)
+        elif isinstance(s, ast.Assign) and len(s.targets) == 1 and isinstance(s.targets[0], ast.Subscript) and isinstance(s.targets[0].value, ast.Name) \
                 and s.targets[0].value.id in env and (is_full_slice(s.targets[0].slice) or (isinstance(s.targets[0].slice, ast.Constant) and s.targets[0].slice.value is Ellipsis)):
             # X[:] = v / X[...] = v : every element replaced (v broadcast into the shape of X)
             env[s.targets[0].value.id] = _SubstEnv(env).visit(copy.deepcopy(s.value))
@@ -647,9 +798,64 @@ def seq_env(stmts, upto=None, env=None, keep=()):
             env[name] = ast.Call(func=ast.Attribute(value=ast.Name(id="np", ctx=ast.Load()), attr="where", ctx=ast.Load()),
                                  args=[mask, _SubstEnv(env).visit(copy.deepcopy(s.value)), env[name]], keywords=[])
         else:
+            merged = _if_dict_merge(env, s, keep) if isinstance(s, ast.If) else {}
             for n in stored_names(s):
                 env.pop(n, None)
+            for n in _entry_touchers(s):
+                env.pop(n, None)                    # entries stored / removed in a way that is not followed: the dictionary is not known any more
+            _entry_effects(env, s)
+            env.update(merged)
     return env
+
+
+def _terminates(stmts):
+    return bool(stmts) and isinstance(stmts[-1], (ast.Return, ast.Raise, ast.Continue, ast.Break))
+
+
+def _if_dict_merge(env, s, keep=()):
+    """`if T: d["k"] = v` and its relatives on a dictionary that is written out in env: the dictionary after the statement, an entry that
+    only one branch stores written `v if T else <left out>` (what ** then hands over, or does not).  {} when the statement is not of
+    that kind."""
+    cand = [n for n in sorted(_entry_touchers(s) | stored_names(s)) if "[" not in n]
+    base = {n for n in cand if n in env and _as_dict_literal(env[n]) is not None}
+    if not cand:
+        return {}
+    e1 = seq_env(s.body, env=env, keep=keep)
+    e2 = seq_env(s.orelse, env=env, keep=keep)
+    t1, t2 = _terminates(s.body), _terminates(s.orelse)
+    if t1 and t2:
+        return {}
+    test = _SubstEnv(env).visit(copy.deepcopy(s.test))
+    ntest = ast.UnaryOp(op=ast.Not(), operand=test)
+    if isinstance(test, ast.Compare) and len(test.ops) == 1 and isinstance(test.ops[0], (ast.Is, ast.IsNot)):
+        ntest = ast.Compare(left=test.left, ops=[ast.IsNot() if isinstance(test.ops[0], ast.Is) else ast.Is()], comparators=test.comparators)
+    out = {}
+    absent = ast.Name(id=CALLEE_DEFAULT, ctx=ast.Load())
+    for n in cand:
+        a, b = e1.get(n), e2.get(n)
+        da, db = (_as_dict_literal(a) if a is not None else None), (_as_dict_literal(b) if b is not None else None)
+        if t1 or t2:
+            d = db if t1 else da
+            if d is not None and (n in base or n in stored_names(s)):
+                out[n] = d
+            continue
+        if da is None or db is None:
+            continue
+        ka, kb = [k.value for k in da.keys], [k.value for k in db.keys]
+        keys, vals = [], []
+        for k in ka + [k for k in kb if k not in ka]:
+            va = da.values[ka.index(k)] if k in ka else None
+            vb = db.values[kb.index(k)] if k in kb else None
+            if va is not None and vb is not None:
+                v = va if dump(va) == dump(vb) else ast.IfExp(test=test, body=va, orelse=vb)
+            elif va is not None:
+                v = ast.IfExp(test=test, body=va, orelse=absent)
+            else:
+                v = ast.IfExp(test=ntest, body=vb, orelse=absent)
+            keys.append(ast.Constant(value=k))
+            vals.append(v)
+        out[n] = ast.Dict(keys=keys, values=vals)
+    return out
 
 
 MASK_CALLS = {"isnan", "isinf", "isfinite", "isclose", "logical_and", "logical_or", "logical_not", "isin", "iscomplex", "isreal"}
@@ -815,8 +1021,9 @@ class _Inline(ast.NodeTransformer):
             return node
         if not isinstance(r, FuncInfo) or r.node is getattr(self.fi, "node", None):
             return node
-        if r.node.decorator_list and not getattr(r, "is_static", False):
-            return node
+        if r.node.decorator_list and not getattr(r, "is_static", False) and not all(
+                src(d.func if isinstance(d, ast.Call) else d).split(".")[-1] in ("lru_cache", "cache") for d in r.node.decorator_list):
+            return node             # (a memoised function returns the value of its body: as a VALUE it may be written out)
         bound = False
         receiver = None
         if r.cls is not None and not getattr(r, "is_static", False):
@@ -1056,20 +1263,149 @@ def access_path(e, tables):
     return Access(tname, col, row)
 
 
-def prune(body, consts, subst=False):
+def prune(body, consts, subst=False, fi=None):
     """copy of `body` in which every `if` decidable under `consts` is replaced by the taken branch, recursively inside loops,
     try and with blocks (compound nodes are shallow-copied, simple statements are shared with the original tree).
-    subst: names known to hold a literal at a statement are written as that literal there."""
-    global _PRUNE_SUBST
-    old = _PRUNE_SUBST
+    subst: names known to hold a literal at a statement are written as that literal there.
+    fi: the function the statements belong to - lets `label = helper(label)` be computed when the helper returns a constant for it."""
+    global _PRUNE_SUBST, _PRUNE_FI
+    old = _PRUNE_SUBST, _PRUNE_FI
     _PRUNE_SUBST = subst
+    if fi is not None:
+        _PRUNE_FI = fi
     try:
         return _prune(body, consts)[0]
     finally:
-        _PRUNE_SUBST = old
+        _PRUNE_SUBST, _PRUNE_FI = old
 
 
 _PRUNE_SUBST = False
+_PRUNE_FI = None
+
+
+def const_call(fi, call, consts):
+    """_const_call for a call written in function fi"""
+    global _PRUNE_FI
+    old = _PRUNE_FI
+    _PRUNE_FI = fi
+    try:
+        return _const_call(call, consts)
+    finally:
+        _PRUNE_FI = old
+
+
+_INT_VALUED = {"argmin", "argmax", "nanargmin", "nanargmax", "len", "searchsorted", "index", "count_nonzero", "argsort", "flatnonzero"}
+_ARRAY_OF = {"asarray", "asanyarray", "ascontiguousarray", "asfarray"}
+
+
+class _Uncoerce(ast.NodeTransformer):
+    def visit_Call(self, n):
+        self.generic_visit(n)
+        nm = src(n.func).split(".")[-1]
+        if isinstance(n.func, ast.Name) and n.func.id == "float" and len(n.args) == 1 and not n.keywords and not isinstance(n.args[0], ast.Constant):
+            return n.args[0]
+        if isinstance(n.func, ast.Name) and n.func.id == "int" and len(n.args) == 1 and not n.keywords and isinstance(n.args[0], ast.Call) \
+                and src(n.args[0].func).split(".")[-1] in _INT_VALUED:
+            return n.args[0]                # already an integer
+        if nm in _ARRAY_OF and src(n.func).split(".")[0] in ("np", "numpy") and len(n.args) == 1 and all(k.arg in ("dtype", "order") for k in n.keywords):
+            return n.args[0]
+        if isinstance(n.func, ast.Attribute) and n.func.attr in ("item", "tolist") and not n.args and not n.keywords:
+            return n.func.value
+        return n
+
+    def _comp(self, n):
+        self.generic_visit(n)
+        # [float(v) for v in X] / [int(v) for v in X]: X, element by element
+        if len(n.generators) == 1 and not n.generators[0].ifs and isinstance(n.generators[0].target, ast.Name):
+            v = n.generators[0].target.id
+            e = n.elt
+            if isinstance(e, ast.Call) and isinstance(e.func, ast.Name) and e.func.id in ("float", "int") and len(e.args) == 1 and not e.keywords:
+                e = e.args[0]
+            if isinstance(e, ast.Name) and e.id == v:
+                return n.generators[0].iter
+        return n
+
+    visit_ListComp = _comp
+
+
+def uncoerce(e):
+    """e without the conversions that keep every value: float(x), int(<integer-valued call>), np.asarray(x[, dtype]), .item(),
+    [float(v) for v in X]"""
+    return ast.fix_missing_locations(_Uncoerce().visit(copy.deepcopy(e))) if e is not None else None
+
+
+def strip_coercion(e):
+    """int(x) / float(x) / str(x) / np.float64(x) ..: x - a conversion of type keeps what the user set"""
+    while isinstance(e, ast.Call) and len(e.args) == 1 and not e.keywords and src(e.func).split(".")[-1] in (
+            "int", "float", "str", "float64", "int64", "int32", "float32", "index", "intp"):
+        e = e.args[0]
+    return e
+
+
+def keeps_labels(fi, e, pname, labels):
+    """e is `helper(pname)` and the helper gives back each of the labels unchanged (a normaliser of spellings): True; False when it
+    turns one of them into another label; None when it cannot be computed"""
+    if not (isinstance(e, ast.Call) and len(e.args) >= 1 and isinstance(e.args[0], ast.Name) and e.args[0].id == pname):
+        return None
+    res = [const_call(fi, e, {pname: l}) for l in labels]
+    if any(r is _UNDEC for r in res):
+        return None
+    return all(r == l for r, l in zip(res, labels))
+_CONST_CALL_DEPTH = [0]
+
+
+def _const_call(call, consts):
+    """value of `helper(label, ..)` when every argument is a known constant and the helper - a function of the package, specialised
+    to those constants - returns one and the same constant on every path that returns (a label normalised through a table of
+    spellings, a flag looked up by name); _UNDEC otherwise"""
+    if PROG is None or _PRUNE_FI is None or _CONST_CALL_DEPTH[0] > 2 or call.keywords and any(k.arg is None for k in call.keywords):
+        return _UNDEC
+    if any(isinstance(a, ast.Starred) for a in call.args):
+        return _UNDEC
+    try:
+        r = PROG.resolve_call(getattr(_PRUNE_FI, "fi", _PRUNE_FI), call)
+    except Exception:
+        return _UNDEC
+    if not hasattr(r, "node") or not isinstance(r.node, ast.FunctionDef) or r.node.args.vararg or r.node.args.kwarg or getattr(r, "cls", None) is not None:
+        return _UNDEC
+    m, errs = bind_args(r.node, call)
+    if errs:
+        return _UNDEC
+    seeds = {}
+    for p_, a in m.items():
+        v = const_test(a, consts) if isinstance(a, ast.AST) else _UNDEC
+        if v is _UNDEC or not (v is None or isinstance(v, (str, bool))):
+            continue                # not known: the helper is specialised to the arguments that are; its returns must be constant all the same
+        seeds[p_] = v
+    if not seeds:
+        return _UNDEC
+    from .desugar import const_eval, NotConst
+    _CONST_CALL_DEPTH[0] += 1
+    try:
+        body = prune(r.node.body, seeds, subst=True, fi=r)
+    finally:
+        _CONST_CALL_DEPTH[0] -= 1
+    vals = []
+    stack = list(body)
+    while stack:
+        st = stack.pop()
+        if isinstance(st, (ast.FunctionDef, ast.AsyncFunctionDef, ast.ClassDef)):
+            continue
+        if isinstance(st, ast.Return):
+            if st.value is None:
+                return _UNDEC
+            try:
+                vals.append(const_eval(st.value, {k: ast.Constant(value=v) for k, v in seeds.items()}))
+            except NotConst:
+                return _UNDEC
+            continue
+        for f_ in ("body", "orelse", "finalbody"):
+            stack.extend(getattr(st, f_, []) or [])
+        for h in getattr(st, "handlers", []) or []:
+            stack.extend(h.body)
+    if not vals or any(repr(v) != repr(vals[0]) for v in vals) or not (vals[0] is None or isinstance(vals[0], (str, bool))):
+        return _UNDEC
+    return vals[0]
 
 
 def _assigned_names(stmts):
@@ -1098,7 +1434,8 @@ def _prune(body, consts):
             break           # code after a decided early exit is unreachable under these constants
         if isinstance(s, ast.Assign) and len(s.targets) == 1 and isinstance(s.targets[0], ast.Name):
             nm = s.targets[0].id
-            if isinstance(s.value, (ast.Compare, ast.BoolOp, ast.UnaryOp, ast.Name, ast.Attribute)):
+            if isinstance(s.value, (ast.Compare, ast.BoolOp, ast.UnaryOp, ast.Name, ast.Attribute)) or (
+                    isinstance(s.value, (ast.Subscript, ast.Call)) and const_test(s.value, consts) is not _UNDEC):
                 v = const_test(s.value, consts)
                 if v is not _UNDEC and (isinstance(v, (bool, str, OneOf)) or v is None):
                     consts[nm] = v      # a flag derived from the seeded constants / a local name for a seeded attribute
@@ -1106,6 +1443,8 @@ def _prune(body, consts):
                     consts.pop(nm, None)
             elif isinstance(s.value, ast.Constant) and (s.value.value is None or isinstance(s.value.value, (str, bool))) and nm not in ("self",):
                 consts[nm] = s.value.value          # a label / flag set to a literal
+            elif isinstance(s.value, ast.Call) and s.value.args and consts and _const_call(s.value, consts) is not _UNDEC:
+                consts[nm] = _const_call(s.value, consts)     # a label passed through a helper that gives a constant for it
             else:
                 consts.pop(nm, None)
         elif isinstance(s, (ast.Assign, ast.AugAssign, ast.AnnAssign, ast.For, ast.With)) or isinstance(s, ast.Delete):
@@ -1270,16 +1609,16 @@ def alias_root(fnode, name, limit=12):
 class PrunedFn:
     """a function specialised to constant seeds (decidable branches removed everywhere); usable where a FuncInfo is expected"""
 
-    def __init__(self, fi, consts, subst=False):
+    def __init__(self, fi, consts, subst=False, renormalise=True):
         self.fi = fi
         self.mod, self.cls, self.qual = fi.mod, fi.cls, fi.qual
         self.is_property = self.is_static = self.is_classmethod = False
         # subst: names holding a literal label / flag at a statement are written as that literal there, so that helpers they are handed to
         # can be specialised too
-        body = prune(fi.node.body, consts, subst=subst)
+        body = prune(fi.node.body, consts, subst=subst, fi=fi)
         node = ast.FunctionDef(name=fi.node.name, args=fi.node.args, body=body or [ast.Pass()], decorator_list=[], returns=None)
         ast.copy_location(node, fi.node)
-        if PROG is not None and getattr(PROG, "desugarer", None) is not None:
+        if renormalise and PROG is not None and getattr(PROG, "desugarer", None) is not None:
             # option dicts / name tuples that differed between the decided branches are literal now
             from . import desugar as _ds
             cls_node = getattr(getattr(fi, "cls", None), "node", None)
@@ -1537,6 +1876,49 @@ def _model_subset_items(prog, fi, x):
     return [(k, ast.Attribute(value=copy.deepcopy(X), attr=k, ctx=ast.Load())) for k in names if k in fields]
 
 
+class _GetattrFields(ast.NodeTransformer):
+    """getattr(self.run_params, "name", default) with the fields of the algorithm's parameter model known: the attribute, or the default
+    when the model has no such field"""
+    def __init__(self, prog, fi):
+        self.fields = None
+        if prog is not None and fi is not None and getattr(fi, "cls", None) is not None:
+            self.fields = prog.model_fields(fi.cls, "RunParamCls")
+
+    def visit_Call(self, n):
+        self.generic_visit(n)
+        if isinstance(n.func, ast.Name) and n.func.id == "getattr" and len(n.args) == 3 and not n.keywords and isinstance(n.args[1], ast.Constant) \
+                and isinstance(n.args[1].value, str) and src(n.args[0]) == "self.run_params" and self.fields is not None:
+            if n.args[1].value in self.fields:
+                return ast.Attribute(value=n.args[0], attr=n.args[1].value, ctx=ast.Load())
+            return n.args[2]
+        return n
+
+
+def _settle_items(prog, fi, items):
+    """entries of a written-out dictionary after what is known statically is applied: attribute look-ups by name on the parameter
+    model, `v if v is not None else <left out>` with v the constant None (always left out) or another constant (always there)"""
+    out = []
+    for k, v in items:
+        if any(isinstance(x, ast.Name) and x.id == "getattr" for x in ast.walk(v)):
+            v = ast.fix_missing_locations(_GetattrFields(prog, fi).visit(copy.deepcopy(v)))
+        if isinstance(v, ast.IfExp) and isinstance(v.orelse, ast.Name) and v.orelse.id == CALLEE_DEFAULT and isinstance(v.test, ast.Compare) \
+                and len(v.test.ops) == 1 and isinstance(v.test.ops[0], (ast.IsNot, ast.Is)) and isinstance(v.test.left, ast.Constant) \
+                and isinstance(v.test.comparators[0], ast.Constant) and v.test.comparators[0].value is None:
+            there = (v.test.left.value is not None) == isinstance(v.test.ops[0], ast.IsNot)
+            if not there:
+                continue
+            v = v.body
+        elif isinstance(v, ast.IfExp) and isinstance(v.orelse, ast.Name) and v.orelse.id == CALLEE_DEFAULT and isinstance(v.test, ast.Constant):
+            if v.test.value is None or (isinstance(v.test.value, str) and not v.test.value):
+                continue                    # `if value:` on a value that is the constant None / "": never stored, and nothing is lost
+            if not v.test.value:
+                out.append((k, v))          # 0 / 0.0 / False dropped by a truth test: kept as written - that IS the finding of the options rule
+                continue
+            v = v.body
+        out.append((k, v))
+    return out
+
+
 def _notnone_default(v, callee_node, name):
     """`x if x is not None else <callee default>` is `x` when the callee's own default for that parameter is None"""
     if isinstance(v, ast.IfExp) and isinstance(v.orelse, ast.Name) and v.orelse.id == CALLEE_DEFAULT and isinstance(v.test, ast.Compare) \
@@ -1596,6 +1978,8 @@ def dict_items_of(prog, fi, x):
         items = dictcomp_items(x, prog, fi)
         if items is None:
             items = _model_subset_items(prog, fi, x)
+    if items is not None:
+        items = _settle_items(prog, fi, items)
     if items is not None and fills:
         # d.setdefault(k, v): k keeps its entry; an entry that may be left out (`x if <set> else <not passed>`) falls back on v
         for fk, fv in fills:
@@ -1711,6 +2095,80 @@ def bind_call(prog, fi, callee_node, call, bound=False):
         # re-evaluate missing-required now that ** entries are known
         errs = [e for e in errs if not (e.startswith("missing required argument") and e.split("'")[1] in m)]
     return m, errs, complete
+
+
+def _param_default(fnode, name):
+    a_ = fnode.args
+    pos_ = [x.arg for x in a_.posonlyargs + a_.args]
+    dmap = dict(zip(pos_[len(pos_) - len(a_.defaults):], a_.defaults))
+    dmap.update({k.arg: d for k, d in zip(a_.kwonlyargs, a_.kw_defaults) if d is not None})
+    return dmap.get(name)
+
+
+def _model_field_default(prog, fi, name):
+    """default expression of field `name` of the parameter model of the class fi is a method of (None when it is not found)"""
+    ci = getattr(fi, "cls", None)
+    if ci is None:
+        return None
+    c, v = prog.find_classattr(ci, "RunParamCls")
+    if v is None:
+        return None
+    try:
+        r = prog.resolve_expr(c.mod, v)
+    except Exception:
+        return None
+    if not hasattr(r, "node"):
+        return None
+    for k in prog.mro(r):
+        for b in k.node.body:
+            if isinstance(b, ast.AnnAssign) and isinstance(b.target, ast.Name) and b.target.id == name:
+                return b.value
+    return None
+
+
+def resolves_by_default(prog, fi, e, accept, depth=4, _seen=()):
+    """does the value of expression e in fi satisfy `accept` whenever the user leaves the library's defaults alone?  Constants are
+    judged; a parameter by its default and by what every caller inside the package hands over (recursively); a field of the run
+    parameters by its default (a user who sets it has asked for something else).  True / False / None (not followed)."""
+    base = getattr(fi, "fi", fi)
+    x = expand(fi, e) if not isinstance(e, ast.Constant) else e
+    if isinstance(x, ast.IfExp) and isinstance(x.orelse, ast.Name) and x.orelse.id == CALLEE_DEFAULT:
+        x = x.body
+    if isinstance(x, ast.Constant):
+        return bool(accept(x.value))
+    if depth <= 0:
+        return None
+    if isinstance(x, ast.Attribute) and src(x.value) == "self.run_params":
+        d = _model_field_default(prog, base, x.attr)
+        if isinstance(d, ast.Constant):
+            return bool(accept(d.value))
+        return None
+    pos, kwonly = params_of(base.node)[0], params_of(base.node)[1]
+    if isinstance(x, ast.Name) and x.id in pos + kwonly and not any(
+            isinstance(n, ast.Name) and n.id == x.id and isinstance(n.ctx, ast.Store) for n in ast.walk(base.node)):
+        verdicts = []
+        d = _param_default(base.node, x.id)
+        if d is not None:
+            verdicts.append(bool(accept(d.value)) if isinstance(d, ast.Constant) else None)
+        from .effects import _callers
+        key = (id(base.node), x.id)
+        if key in _seen:
+            return None
+        for g, c in _callers(prog, base):
+            bound = bool(getattr(base, "cls", None)) and not getattr(base, "is_static", False)
+            m, errs, complete = bind_call(prog, g, base.node, c, bound=bound)
+            if x.id in m:
+                verdicts.append(resolves_by_default(prog, g, expr_at(g, c, m[x.id]), accept, depth - 1, _seen + (key,)))
+            elif not complete:
+                verdicts.append(None)
+            elif d is None:
+                verdicts.append(None)
+        if not verdicts:
+            return None
+        if any(v is False for v in verdicts):
+            return False
+        return None if any(v is None for v in verdicts) else True
+    return None
 
 
 class Elem:
@@ -2188,7 +2646,17 @@ def handover(prog, fi, callee_qual, want, depth=1):
         c = rec["outer_call"]
         for p_, sources in want.items():
             if p_ in rec["missing"]:
-                out.append((c, p_, False if rec["complete"] else None, f"`{p_}` is not passed (the callee's default is used)"))
+                st_, why_ = (False if rec["complete"] else None), ""
+                if st_ is False:
+                    # the wanted value may reach the callee inside another argument (the whole option dictionary, a tuple made of it)
+                    roots = {re.sub(r"(\[[^\]]*\]|\.get\([^)]*\))$", "", t_) for t_ in sources}
+                    for q_, x_ in rec["args"].items():
+                        xt = src(x_, 4000) if isinstance(x_, ast.AST) else ""
+                        hit = next((r_ for r_ in roots if r_ and r_ in xt), None)
+                        if hit is not None:
+                            st_, why_ = None, f"; `{hit}` reaches the callee through its parameter `{q_}` - how it is used there was not followed"
+                            break
+                out.append((c, p_, st_, f"`{p_}` is not passed (the callee's default is used)" + why_))
                 continue
             a = rec["args"].get(p_)
             if a is None:
@@ -2282,3 +2750,473 @@ def dropped_options_rule(prog, run, rule, quals):
                                                                f"default of {src(c.func, 30)} applies"), witness=",".join(lost), file=f, node=c)
     if not n:
         run.ob(rule, quals[0] if quals else "-", "option dictionaries", True, "no call with a spread option dictionary that can be written out")
+
+
+# ----------------------------------------------------------------------------- shortcut taken under a guard
+_SCALAR_OF = {"max", "min", "size", "shape", "amax", "amin", "nanmax", "nanmin", "len", "ptp", "sum", "ndim", "unique", "any", "all"}
+_ELEMENTWISE_EQ = {"array_equal", "array_equiv", "allclose"}
+_ORDER_BLIND = {"set", "sorted", "frozenset", "difference", "issubset", "issuperset", "symmetric_difference", "isdisjoint", "intersection", "union", "len", "Counter"}
+
+
+def _first_index(sub):
+    el = index_elts(sub)
+    return el[0] if el else None
+
+
+def _slice_bounds(e):
+    """(lo, hi) of `slice(lo, hi)` / `slice(hi)` / the leading `lo:hi` of a subscript, with a missing lower bound as 0; None otherwise"""
+    if isinstance(e, ast.Call) and isinstance(e.func, ast.Name) and e.func.id == "slice" and 1 <= len(e.args) <= 2 and not e.keywords:
+        lo, hi = (ast.Constant(value=0), e.args[0]) if len(e.args) == 1 else (e.args[0], e.args[1])
+        if isinstance(lo, ast.Constant) and lo.value is None:
+            lo = ast.Constant(value=0)
+        return lo, hi
+    if isinstance(e, ast.Slice) and e.step is None and e.upper is not None:
+        return (e.lower if e.lower is not None else ast.Constant(value=0)), e.upper
+    return None
+
+
+def _ramp_bounds(e):
+    """(lo, hi) of np.arange(lo, hi) / np.arange(hi) / range(..) / list(range(..))"""
+    while isinstance(e, ast.Call) and isinstance(e.func, ast.Name) and e.func.id in ("list", "tuple") and len(e.args) == 1:
+        e = e.args[0]
+    if isinstance(e, ast.Call) and src(e.func).split(".")[-1] in ("arange", "range") and 1 <= len(e.args) <= 2 and all(k.arg == "dtype" for k in e.keywords):
+        return (ast.Constant(value=0), e.args[0]) if len(e.args) == 1 else (e.args[0], e.args[1])
+    return None
+
+
+def _branch_results(stmts):
+    """what a branch hands on: ('ret', [values]) of its final return, else {'name': value} of its plain assignments"""
+    if stmts and isinstance(stmts[-1], ast.Return) and stmts[-1].value is not None:
+        v = stmts[-1].value
+        return "ret", (list(v.elts) if isinstance(v, ast.Tuple) else [v])
+    out = {}
+    for s in stmts:
+        if isinstance(s, ast.Assign) and len(s.targets) == 1 and isinstance(s.targets[0], ast.Name):
+            out[s.targets[0].id] = s.value
+        elif isinstance(s, ast.Assign) and len(s.targets) == 1 and isinstance(s.targets[0], ast.Tuple) and isinstance(s.value, ast.Tuple) \
+                and len(s.value.elts) == len(s.targets[0].elts):
+            for t_, v_ in zip(s.targets[0].elts, s.value.elts):
+                if isinstance(t_, ast.Name):
+                    out[t_.id] = v_
+    return "set", out
+
+
+def shortcut_sites(fi):
+    """[(if node, fast expr, slow expr, idx expr, (lo, hi), negated)]: an `if` one of whose branches hands on a contiguous block
+    (`slice(lo, hi)` / `X[lo:hi]`) where the other branch (or the code after an early return) hands on the gathered selection
+    (`idx` / `X[idx]`) at the same place"""
+    out = []
+    pm = parent_map(fi.node)
+    for ifn in ast.walk(fi.node):
+        if not isinstance(ifn, ast.If):
+            continue
+        other = ifn.orelse
+        if not other and _terminates(ifn.body):
+            par = pm.get(ifn)
+            for fld in ("body", "orelse", "finalbody"):
+                blk = getattr(par, fld, None)
+                if isinstance(blk, list) and any(x is ifn for x in blk):
+                    other = blk[[i for i, x in enumerate(blk) if x is ifn][0] + 1:]
+        if not other:
+            continue
+        k1, r1 = _branch_results(ifn.body)
+        k2, r2 = _branch_results(other)
+        if k1 != k2:
+            continue
+        pairs = list(zip(r1, r2)) if k1 == "ret" and len(r1) == len(r2) else [(r1[n_], r2[n_]) for n_ in r1 if n_ in r2] if k1 == "set" else []
+        for a, b in pairs:
+            for fast, slow, neg in ((a, b, False), (b, a, True)):
+                while isinstance(fast, ast.Call) and isinstance(fast.func, ast.Attribute) and fast.func.attr in ("copy", "astype") :
+                    fast = fast.func.value
+                while isinstance(slow, ast.Call) and (src(slow.func).split(".")[-1] in ("ascontiguousarray", "asarray", "array", "copy")) and slow.args:
+                    slow = slow.args[0] if not isinstance(slow.func, ast.Attribute) or src(slow.func).split(".")[0] in ("np", "numpy") else slow.func.value
+                sb = _slice_bounds(fast)
+                idx = slow if sb is not None and not isinstance(slow, ast.Subscript) else None
+                if sb is None and isinstance(fast, ast.Subscript) and isinstance(slow, ast.Subscript) and dump(fast.value) == dump(slow.value):
+                    f0, s0 = _first_index(fast), _first_index(slow)
+                    sb = _slice_bounds(f0) if f0 is not None else None
+                    idx = s0 if s0 is not None and not isinstance(s0, ast.Slice) else None
+                    if sb is not None and [dump(x) for x in index_elts(fast)[1:]] != [dump(x) for x in index_elts(slow)[1:]]:
+                        sb = None
+                if sb is None or idx is None or _slice_bounds(idx) is not None or isinstance(idx, ast.Constant):
+                    continue
+                out.append((ifn, fast, slow, idx, sb, neg))
+    return out
+
+
+def _complement_of(fi, idx):
+    """idx = np.flatnonzero(M) / np.where(M)[0] with M = np.ones(n, dtype=bool); M[L] = False  ->  (name of L, n); None otherwise"""
+    e = idx
+    if isinstance(e, ast.Subscript) and isinstance(e.slice, ast.Constant) and e.slice.value == 0:
+        e = e.value
+    if not (isinstance(e, ast.Call) and src(e.func).split(".")[-1] in ("flatnonzero", "where", "nonzero") and len(e.args) == 1 and isinstance(e.args[0], ast.Name)):
+        return None
+    m = e.args[0].id
+    n_, L = None, None
+    for s_ in ast.walk(fi.node):
+        if isinstance(s_, ast.Assign) and len(s_.targets) == 1:
+            t_ = s_.targets[0]
+            if isinstance(t_, ast.Name) and t_.id == m:
+                v = s_.value
+                if isinstance(v, ast.Call) and src(v.func).split(".")[-1] == "ones" and v.args and any(k.arg == "dtype" and src(k.value) in ("bool", "np.bool_") for k in v.keywords):
+                    n_ = v.args[0]
+                else:
+                    return None
+            elif isinstance(t_, ast.Subscript) and isinstance(t_.value, ast.Name) and t_.value.id == m:
+                if isinstance(t_.slice, ast.Name) and isinstance(s_.value, ast.Constant) and s_.value.value is False and L is None:
+                    L = t_.slice.id
+                else:
+                    return None
+    return (L, n_) if L is not None and n_ is not None else None
+
+
+def shortcut_rule(prog, run, rule, quals):
+    """a contiguous block taken instead of a gathered selection is the same selection only when the guard says that the index list IS
+    the ramp lo..hi-1, element by element; a guard made of sizes and extreme values alone also lets through the same indices in another
+    order.  True: element-wise comparison with the ramp of the slice; False: only scalar facts of the index list; None otherwise."""
+    from .program import rel
+    n = 0
+    for q in quals:
+        fi = prog.functions.get(q)
+        if fi is None:
+            continue
+        f = rel(prog.mods[fi.mod].path)
+        for ifn, fast, slow, idx, (lo, hi), neg in shortcut_sites(fi):
+            n += 1
+            g = expr_at(fi, ifn, ifn.test)
+            idx_x = expr_at(fi, ifn, idx)
+            roots = {src(idx), src(idx_x)} | {x.id for x in ast.walk(idx) if isinstance(x, ast.Name) and x.id not in ("np", "numpy", "scipy", "self")}
+            lo_x, hi_x = expr_at(fi, ifn, lo), expr_at(fi, ifn, hi)
+
+            def mentions(e):
+                return any((isinstance(x, ast.Name) and x.id in roots) or src(x) in roots for x in ast.walk(e))
+            verdict, why = None, "the guard is not of a form this rule reads"
+            strong = None
+            for c in ast.walk(g):
+                if isinstance(c, ast.Call) and src(c.func).split(".")[-1] in _ELEMENTWISE_EQ and len(c.args) >= 2:
+                    for a_, b_ in ((c.args[0], c.args[1]), (c.args[1], c.args[0])):
+                        if mentions(a_) and _ramp_bounds(b_) is not None:
+                            strong = _ramp_bounds(b_)
+                elif isinstance(c, ast.Compare) and len(c.ops) == 1 and isinstance(c.ops[0], ast.Eq):
+                    for a_, b_ in ((c.left, c.comparators[0]), (c.comparators[0], c.left)):
+                        if mentions(a_) and _ramp_bounds(b_) is not None:
+                            strong = _ramp_bounds(b_)
+            comp = None
+            if strong is None:
+                comp = _complement_of(fi, idx)
+                if comp is not None:
+                    # the gathered selection is the complement of a list L in 0..n-1: under `L == ramp 0..k` it is the ramp k..n
+                    L, n_ = comp
+                    roots2 = {L}
+                    for c in ast.walk(g):
+                        if isinstance(c, ast.Call) and src(c.func).split(".")[-1] in _ELEMENTWISE_EQ and len(c.args) >= 2:
+                            for a_, b_ in ((c.args[0], c.args[1]), (c.args[1], c.args[0])):
+                                if any(isinstance(x, ast.Name) and x.id in roots2 for x in ast.walk(a_)) and _ramp_bounds(b_) is not None:
+                                    rb = _ramp_bounds(b_)
+                                    if isinstance(rb[0], ast.Constant) and rb[0].value == 0:
+                                        strong = (rb[1], n_)
+            sorted_before = any(isinstance(s_, ast.Assign) and any(isinstance(t_, ast.Name) and t_.id in roots for t_ in s_.targets) and isinstance(s_.value, ast.Call)
+                                and src(s_.value.func).split(".")[-1] in ("sort", "unique", "sorted", "arange", "range") for s_ in ast.walk(fi.node))
+            if neg:
+                verdict, why = None, "the contiguous block is taken on the negative branch of the test"
+            elif strong is not None:
+                same = dump(fold(copy.deepcopy(strong[0]))) == dump(fold(copy.deepcopy(lo_x))) and dump(strong[1]) == dump(hi_x) or \
+                    (src(strong[0]) == src(lo) and src(strong[1]) == src(hi)) or (src(expr_at(fi, ifn, strong[0])) == src(lo_x) and src(expr_at(fi, ifn, strong[1])) == src(hi_x))
+                verdict = True if same else None
+                why = f"the index list is compared element by element with the ramp {src(strong[0])}..{src(strong[1])}" + ("" if same else f", the block taken is {src(lo)}..{src(hi)}")
+            elif sorted_before:
+                verdict, why = None, "the index list is sorted / made unique before the test"
+            else:
+                # every appearance of the index list in the guard sits under a reduction to a scalar (size, extreme values, first / last element)
+                uses = []
+                pm = parent_map(g)
+                for x in ast.walk(g):
+                    if (isinstance(x, ast.Name) and x.id in roots) or (not isinstance(x, ast.Name) and src(x) in roots):
+                        p_ = pm.get(x)
+                        # conversions that keep the elements are looked through: np.asarray(idx).ravel().max() is still a fact about idx
+                        while True:
+                            if isinstance(p_, ast.Call) and x in p_.args and src(p_.func).split(".")[-1] in ("asarray", "array", "atleast_1d", "asanyarray", "ravel", "squeeze", "int_", "intp"):
+                                x, p_ = p_, pm.get(p_)
+                            elif isinstance(p_, ast.Attribute) and p_.attr in ("ravel", "flatten", "astype", "copy", "squeeze", "reshape") and isinstance(pm.get(p_), ast.Call) and pm.get(p_).func is p_:
+                                x, p_ = pm.get(p_), pm.get(pm.get(p_))
+                            else:
+                                break
+                        scalar = False
+                        if isinstance(p_, ast.Attribute) and p_.attr in _SCALAR_OF:
+                            scalar = True
+                        elif isinstance(p_, ast.Call) and src(p_.func).split(".")[-1] in _SCALAR_OF and x in p_.args:
+                            scalar = True
+                        elif isinstance(p_, ast.Subscript) and p_.value is x and isinstance(p_.slice, (ast.Constant, ast.UnaryOp)):
+                            scalar = True
+                        uses.append(scalar)
+                if uses and all(uses):
+                    verdict = False
+                    why = (f"the test `{src(ifn.test, 60)}` looks only at sizes / extreme values of `{src(idx)}`" if uses else f"the test `{src(ifn.test, 60)}` does not look at the elements of `{src(idx)}`") + \
+                        f": the same indices in another order also take the block {src(lo)}:{src(hi)}, which is then not the listed selection"
+            run.ob(rule, fi.qual, f"block `{src(fast, 40)}` in place of `{src(slow, 40)}`", verdict, why, witness=src(ifn.test, 80), file=f, node=ifn)
+    if not n:
+        run.ob(rule, quals[0] if quals else "-", "shortcuts", True, "no contiguous block is taken in place of a gathered selection")
+
+
+def shortcut_obligations(prog, run, roots, rule="R-shortcut"):
+    """shortcut_rule over everything reachable from the given functions (plot helpers left out)"""
+    run.rule(rule, "where a contiguous block (slice) is taken in place of a gathered selection (index list), the guard compares the index list "
+             "element by element with the ramp of that block - sizes / extreme values alone also admit the same indices in another order", 0)
+    qs = [prog.func(r_).qual if not r_.startswith("pyoma2.") else r_ for r_ in roots]
+    reach = sorted(q for q in prog.reachable(qs) if q in prog.functions and not q.startswith("pyoma2.functions.plot") and not q.startswith("pyoma2.support.geometry"))
+    shortcut_rule(prog, run, rule, reach)
+
+
+# ----------------------------------------------------------------------------- outputs of an eigen-decomposition
+def eig_output_role(prog, fi, e):
+    """which output of an eigen-decomposition the (expanded) expression e is: 'w' (eigenvalues), 'vl' (left eigenvectors), 'vr' (right
+    eigenvectors); None when e is not a positional selection from such a call or the `left=` / `right=` flags are not constants.
+    Layout (scipy.linalg.eig): (w, [vl if left], [vr if right]); numpy.linalg.eig: (w, vr)."""
+    idxs = []
+    x = e
+    while True:
+        if isinstance(x, ast.Subscript):
+            idxs.append(x.slice)
+            x = x.value
+        elif isinstance(x, ast.Call) and isinstance(x.func, ast.Attribute) and x.func.attr in ("copy", "astype", "conj") and not isinstance(x.func.value, ast.Name):
+            x = x.func.value
+        else:
+            break
+    if not (isinstance(x, ast.Call) and (callee_name(prog, fi, x) or "").split(".")[-1] in ("eig", "eigh") and "linalg" in (callee_name(prog, fi, x) or "")):
+        return None
+    nm = callee_name(prog, fi, x)
+    if nm.startswith("numpy.") or nm.endswith("eigh"):
+        outs = ["w", "vr"]
+    else:
+        def flag(k, pos, default):
+            v = kwarg(x, k, pos)
+            if v is None:
+                return default
+            return v.value if isinstance(v, ast.Constant) and isinstance(v.value, bool) else None
+        left, right = flag("left", 2, False), flag("right", 3, True)
+        if left is None or right is None:
+            return None
+        outs = ["w"] + (["vl"] if left else []) + (["vr"] if right else [])
+    # apply the chain of positional selections, innermost first
+    for sl in reversed(idxs):
+        if isinstance(sl, ast.Slice):
+            def cv(b):
+                if b is None:
+                    return None
+                b = fold(copy.deepcopy(b))
+                if isinstance(b, ast.Constant) and isinstance(b.value, int):
+                    return b.value
+                if isinstance(b, ast.UnaryOp) and isinstance(b.op, ast.USub) and isinstance(b.operand, ast.Constant):
+                    return -b.operand.value
+                raise ValueError
+            try:
+                outs = outs[cv(sl.lower):cv(sl.upper):cv(sl.step)]
+            except ValueError:
+                return None
+            continue
+        k = sl
+        if isinstance(k, ast.UnaryOp) and isinstance(k.op, ast.USub) and isinstance(k.operand, ast.Constant):
+            k = ast.Constant(value=-k.operand.value)
+        if not (isinstance(k, ast.Constant) and isinstance(k.value, int)) or not (-len(outs) <= k.value < len(outs)):
+            return None
+        if not isinstance(outs, list):
+            return None             # element of an array, not of the tuple of outputs
+        outs = outs[k.value]
+    return outs if isinstance(outs, str) else None
+
+
+# ----------------------------------------------------------------------------- an option of the caller that a helper repeats
+def _mentions_data(val, dep):
+    """a name of `dep` occurs in val other than as `x.shape` / `x.size` / `x.ndim` / `x.dtype` / `len(x)` / `x is y` (extents, not values)"""
+    skip = set()
+    for n in ast.walk(val):
+        if isinstance(n, ast.Attribute) and n.attr in ("shape", "size", "ndim", "dtype") and isinstance(n.value, ast.Name):
+            skip.add(id(n.value))
+        elif isinstance(n, ast.Call) and isinstance(n.func, ast.Name) and n.func.id == "len" and n.args and isinstance(n.args[0], ast.Name):
+            skip.add(id(n.args[0]))
+        elif isinstance(n, ast.Compare) and all(isinstance(o, (ast.Is, ast.IsNot)) for o in n.ops):
+            for x in [n.left] + n.comparators:
+                if isinstance(x, ast.Name):
+                    skip.add(id(x))
+    return any(isinstance(x, ast.Name) and x.id in dep and id(x) not in skip for x in ast.walk(val))
+
+
+def _depends_on(fn, seeds, data_only=False):
+    """names of fn whose value may depend on the names in `seeds` (assignments, augmented assignments, loop targets; flow-insensitive);
+    data_only: dependence through the values, not through extents (`x.shape[1]`, `len(x)`) or identity tests"""
+    dep = set(seeds)
+    changed = True
+    while changed:
+        changed = False
+        for n in ast.walk(fn):
+            tg, val = [], None
+            if isinstance(n, ast.Assign):
+                tg, val = n.targets, n.value
+            elif isinstance(n, (ast.AugAssign, ast.AnnAssign)) and getattr(n, "value", None) is not None:
+                tg, val = [n.target], n.value
+            elif isinstance(n, (ast.For, ast.comprehension)):
+                tg, val = [n.target], n.iter
+            elif isinstance(n, ast.NamedExpr):
+                tg, val = [n.target], n.value
+            if data_only and isinstance(val, ast.IfExp) and isinstance(val.test, ast.Compare) and all(isinstance(o, ast.Is) for o in val.test.ops):
+                val = val.orelse            # `A if y is x else f(y)`: a shortcut for the case that the two are one object; the general case counts
+            if val is None or not (_mentions_data(val, dep) if data_only else any(isinstance(x, ast.Name) and x.id in dep for x in ast.walk(val))):
+                continue
+            for t in tg:
+                for x in ast.walk(t):
+                    if isinstance(x, ast.Name) and x.id not in dep:
+                        dep.add(x.id)
+                        changed = True
+    return dep
+
+
+def repeated_option_rule(prog, run, rule, quals):
+    """a helper that has a parameter of the same name and the same default as an option of its caller is handed that option: called
+    without it, the helper works with its own default whatever the user set - unless what the helper returns from it is not used"""
+    from .program import rel
+    n = 0
+    for q in quals:
+        fi = prog.functions.get(q)
+        if fi is None:
+            continue
+        f = rel(prog.mods[fi.mod].path)
+        fpos, fkwo = params_of(fi.node)[0], params_of(fi.node)[1]
+        fpar = set(fpos + fkwo) - {"self", "cls"}
+        if not fpar:
+            continue
+        pm = None
+        for c, r in prog.calls_in(fi):
+            if not isinstance(r, FuncInfo) or r.node is fi.node or not isinstance(r.node, ast.FunctionDef):
+                continue
+            hpos, hkwo = params_of(r.node)[0], params_of(r.node)[1]
+            shared = [p_ for p_ in hpos + hkwo if p_ in fpar and _param_default(r.node, p_) is not None]
+            if not shared:
+                continue
+            m, errs, complete = bind_call(prog, fi, r.node, c, bound=r.cls is not None and not getattr(r, "is_static", False) and isinstance(c.func, ast.Attribute))
+            for p_ in shared:
+                dh, df = _param_default(r.node, p_), _param_default(fi.node, p_)
+                if df is not None and not (isinstance(dh, ast.Constant) and isinstance(df, ast.Constant) and dh.value == df.value and type(dh.value) is type(df.value)):
+                    continue                # another default: another meaning, or deliberately another value
+                if any(isinstance(x, ast.Name) and x.id == p_ and isinstance(x.ctx, ast.Store) for x in ast.walk(fi.node)):
+                    continue
+                n += 1
+                if p_ in m:
+                    a = m[p_]
+                    # (what is handed over is the business of the hand-over rules; this rule is about leaving the option out)
+                    run.ob(rule, fi.qual, f"{p_} -> {r.node.name}.{p_}", True, f"`{src(c, 60)}`", witness=src(a, 40) if isinstance(a, ast.AST) else "", file=f, node=c)
+                    continue
+                if not complete:
+                    run.ob(rule, fi.qual, f"{p_} -> {r.node.name}.{p_}", None, f"`{src(c, 60)}`: keywords spread from a mapping that is not written out", file=f, node=c)
+                    continue
+                # which returned values depend on the option, and are those used here?
+                dep = _depends_on(r.node, {p_})
+                rets = [x for x in ast.walk(r.node) if isinstance(x, ast.Return) and x.value is not None]
+                width = {len(x.value.elts) if isinstance(x.value, ast.Tuple) else 1 for x in rets}
+                dep_pos = set()
+                for x in rets:
+                    elts = x.value.elts if isinstance(x.value, ast.Tuple) else [x.value]
+                    for i, e in enumerate(elts):
+                        if any(isinstance(y, ast.Name) and y.id in dep for y in ast.walk(e)):
+                            dep_pos.add(i)
+                if pm is None:
+                    pm = parent_map(fi.node)
+                st = pm.get(c)
+                used = None             # positions of the result that are used; None = all
+                if isinstance(st, ast.Assign) and st.value is c and len(st.targets) == 1 and isinstance(st.targets[0], ast.Tuple) and len(width) == 1 \
+                        and len(st.targets[0].elts) == next(iter(width)):
+                    used = set()
+                    for i, t in enumerate(st.targets[0].elts):
+                        if isinstance(t, ast.Name) and (t.id == "_" or not any(isinstance(y, ast.Name) and y.id == t.id and isinstance(y.ctx, ast.Load) for y in ast.walk(fi.node))):
+                            continue
+                        used.add(i)
+                elif isinstance(st, ast.Expr):
+                    used = set()
+                hit = dep_pos if used is None else (dep_pos & used)
+                effect_only = not rets and dep - {p_}
+                if hit or (not rets and effect_only) or (used is None and not dep_pos and dep - {p_}):
+                    run.ob(rule, fi.qual, f"{p_} -> {r.node.name}.{p_}", False if hit else None,
+                           f"`{src(c, 70)}` leaves out `{p_}`: {r.node.name} then works with its own default ({src(dh)}) instead of the caller's `{p_}`, and what it returns from it "
+                           f"(position {sorted(hit)} of its result) is used" if hit else f"`{src(c, 70)}` leaves out `{p_}`", witness=f"{p_} not passed", file=f, node=c)
+                else:
+                    run.ob(rule, fi.qual, f"{p_} -> {r.node.name}.{p_}", True, f"`{src(c, 60)}` leaves out `{p_}`; nothing that depends on it is used from the result", file=f, node=c)
+    if not n:
+        run.ob(rule, quals[0] if quals else "-", "repeated options", True, "no helper repeats an option of its caller")
+
+
+# ----------------------------------------------------------------------------- a table that takes its dtype from what the caller typed
+_KEEP_DTYPE = {"asarray", "array", "atleast_1d", "atleast_2d", "asanyarray", "ravel", "flatten", "reshape", "copy", "squeeze", "ascontiguousarray", "T"}
+
+
+def _user_typed(fi, e, params):
+    """e is a parameter of fi turned into an array without naming a dtype (np.asarray(p), np.atleast_1d(p).ravel() ..): its dtype is
+    whatever the caller typed - integers for `[2, 5, 8]`.  Returns the parameter name, else None"""
+    x = e
+    saw_conv = False
+    while True:
+        if isinstance(x, ast.Call):
+            nm = src(x.func).split(".")[-1]
+            if nm in ("astype",) or any(k.arg == "dtype" for k in x.keywords) or (nm in ("asarray", "array") and len(x.args) > 1):
+                return None
+            if nm in _KEEP_DTYPE:
+                saw_conv = saw_conv or nm in ("asarray", "array", "atleast_1d", "atleast_2d", "asanyarray")
+                is_method = isinstance(x.func, ast.Attribute) and not (isinstance(x.func.value, ast.Name) and x.func.value.id in ("np", "numpy"))
+                x = x.func.value if is_method else (x.args[0] if x.args else None)
+                if x is None:
+                    return None
+                continue
+            return None
+        if isinstance(x, ast.Attribute) and x.attr == "T":
+            x = x.value
+            continue
+        break
+    return x.id if isinstance(x, ast.Name) and x.id in params and saw_conv else None
+
+
+def inherited_dtype_rule(prog, run, rule, quals):
+    """a result table allocated `like` an array made from the caller's argument without a dtype has the caller's dtype: with whole
+    numbers typed as integers every float stored into it is truncated, silently.  Flagged when values of ANOTHER origin (a frequency
+    grid, a computed number) are stored into such a table."""
+    from .program import rel
+    n = 0
+    for q in quals:
+        fi = prog.functions.get(q)
+        if fi is None:
+            continue
+        f = rel(prog.mods[fi.mod].path)
+        params = set(params_of(fi.node)[0] + params_of(fi.node)[1]) - {"self", "cls"}
+        for st in ast.walk(fi.node):
+            if not (isinstance(st, ast.Assign) and len(st.targets) == 1 and isinstance(st.targets[0], ast.Name) and isinstance(st.value, ast.Call)):
+                continue
+            c = st.value
+            nm = src(c.func).split(".")[-1]
+            like = None
+            if nm in ("empty_like", "zeros_like", "ones_like", "full_like") and c.args and not any(k.arg == "dtype" for k in c.keywords):
+                like = c.args[0]
+            elif nm in ("empty", "zeros", "ones", "full"):
+                dt = kwarg(c, "dtype")
+                if isinstance(dt, ast.Attribute) and dt.attr == "dtype":
+                    like = dt.value
+            if like is None:
+                continue
+            srcp = _user_typed(fi, expr_at(fi, st, like), params)
+            if srcp is None:
+                continue
+            tab = st.targets[0].id
+            n += 1
+            bad = None
+            for s2 in ast.walk(fi.node):
+                if isinstance(s2, ast.Assign) and any(isinstance(t, ast.Subscript) and isinstance(t.value, ast.Name) and t.value.id == tab for t in s2.targets):
+                    v = expr_at(fi, s2, s2.value)
+                    names = {x.id for x in ast.walk(v) if isinstance(x, ast.Name)}
+                    if isinstance(v, ast.Constant) and isinstance(v.value, int):
+                        continue
+                    if srcp in names and len(names & params) <= 1:
+                        continue            # a value taken from the same argument: same dtype
+                    bad = s2
+                    break
+            run.ob(rule, fi.qual, f"`{tab}` has the dtype of `{srcp}` as the caller typed it", bad is None,
+                   f"`{src(st, 60)}`" + ("" if bad is None else f": `{src(bad, 60)}` stores values of another origin into it - whole numbers handed in as integers "
+                                         f"(`[2, 5, 8]`) make it an integer array and every stored value is truncated without a warning"),
+                   witness=src(st, 60), file=f, node=bad if bad is not None else st)
+    if not n:
+        run.ob(rule, quals[0] if quals else "-", "inherited dtypes", True, "no result table takes its dtype from an argument converted without a dtype")
